@@ -74,15 +74,46 @@ def showProc (w : WorkerSt) (p : Pid) : String :=
     let res := match x.result with | none => "none" | some r => showRes r
     s!"P{p}:{procClass w p x} mb=[{joinWith "" (x.mailbox.map showMsg)}] aw=[{joinWith ";" aw}] af={showNats (sortNats x.awaitFailed)} sel={if x.selInit then 1 else 0} res={res}"
 
+/-- `Worker.awaited` / `Worker.awaiters_for_target` (hooks `verif_awaited`, `verif_awaiters_for_target`) -/
+def showAwaitBook (w : WorkerSt) : String :=
+  let ts := sortNats w.awaited
+  let af := (ts.filter (fun t => !(w.awaitersFor t).isEmpty)).map (fun t => s!"{t}:{showNats (w.awaitersFor t)}")
+  s!"AW={showNats ts} AF=[{joinWith " " af}]"
+
 def showWorker (s : Sys) (i : Wid) : String :=
   let w := s.wk i
   let procs := (sortNats w.pids).map (showProc w)
   s!"W{i} q={showNats w.queue} sp={showNats (sortNats w.spawning)} se={showNats (sortNats w.selecting)} " ++
+  s!"{showAwaitBook w} " ++
   s!"C=[{joinWith " " ((s.cmdQ i).map showCmd)}] E=[{joinWith " " ((s.evtQ i).map showEvt)}] " ++
   joinWith " " procs
 
+/-- `Environment.process_router` (hook `verif_router`) -/
+def showRouter (s : Sys) : String :=
+  joinWith " " ((List.range s.env.nextPid).filterMap (fun p =>
+    match s.env.router p with
+    | some w => some s!"{p}>{w}"
+    | none => none))
+
+def showStatus : Option Res → String
+  | none => "0"
+  | some (.ok _) => "1"
+  | some .err => "2"
+
+/-- `Environment.pending_awaits` (hook `verif_pending_awaits`): awaiter, workers still expected,
+answers collected so far as target=status -/
+def showPending (s : Sys) : String :=
+  joinWith " " ((List.range s.env.nextPid).filterMap (fun a =>
+    match s.env.pending a with
+    | none => none
+    | some pa =>
+      let resp := (pa.responses.mergeSort (fun x y => x.1 ≤ y.1)).map (fun wr =>
+        let rs := (wr.2.mergeSort (fun x y => x.1 ≤ y.1)).map (fun tr => s!"{tr.1}={showStatus tr.2}")
+        s!"{wr.1}:[{joinWith ";" rs}]")
+      some s!"{a}:e{showNats (sortNats pa.expected)}:r[{joinWith " " resp}]"))
+
 def snapshot (s : Sys) : String :=
-  s!"now={s.now} fault={if s.fault then 1 else 0} next={s.env.nextPid} | " ++
+  s!"now={s.now} fault={if s.fault then 1 else 0} next={s.env.nextPid} R=[{showRouter s}] PA=[{showPending s}] | " ++
   joinWith " | " ((List.range s.n).map (showWorker s))
 
 def showPairs (xs : List (Pid × Msg)) : String :=
